@@ -183,6 +183,15 @@ class _Relabel:
     def check(self, cond, rule, *a, **k):
         return self._c.check(cond, rule.replace(self._o, self._n), *a, **k)
 
+    def violation(self, rule, *a, **k):
+        return self._c.violation(rule.replace(self._o, self._n), *a, **k)
+
+    def ok(self, rule, *a, **k):
+        return self._c.ok(rule.replace(self._o, self._n), *a, **k)
+
+    def floor(self, rule, n):
+        return self._c.floor(rule.replace(self._o, self._n), n)
+
     def __getattr__(self, n):
         return getattr(self._c, n)
 
@@ -234,6 +243,10 @@ def _wire(chk):
               construct="HilbertEOF._fit_algorithm -> EOF._fit_algorithm", why="HilbertEOF no longer fits through EOF._fit_algorithm")
     _extended(chk)
     _hilbert_pad(chk)
+    # the stored decomposition stays what fit computed: no accessor rescales the stored components / scores in place
+    # (shared with C14's rule; here it protects orthonormality of components() on every later call)
+    from . import c14 as _c14
+    _c14._query_mutates(_Relabel(chk, "HIST.query_mutates", "WIRE.query_mutates"))
 
 
 def _hilbert_pad(chk):
@@ -251,14 +264,26 @@ def _hilbert_pad(chk):
     from .common import atomic_conditions
     pads = [c for c in ff.calls() if (dotted(c.func) or "").split(".")[-1] == "_pad_exp"]
     hil = [c for c in ff.calls() if (dotted(c.func) or "").split(".")[-1] == "hilbert"]
-    cuts = [n for n in walk_no_nested(fn.node) if isinstance(n, ast.Subscript) and isinstance(n.slice, ast.Slice) and n.slice.lower is not None and n.slice.upper is not None
-            and isinstance(n.ctx, ast.Load)]
+    def cut_slices(node):
+        return [n for n in walk_no_nested(node) if isinstance(n, ast.Subscript) and isinstance(n.slice, ast.Slice) and n.slice.lower is not None and n.slice.upper is not None
+                and isinstance(n.ctx, ast.Load)]
+
+    cuts = cut_slices(fn.node)
+    site = {id(c): c for c in cuts}  # where the cut happens in fn (the slice itself or the call of a helper that slices)
+    if not cuts:
+        for c in ff.calls():
+            if isinstance(c.func, ast.Name) and c.func.id in fn.module.functions and c.func.id.startswith("_"):
+                inner = cut_slices(fn.module.functions[c.func.id].node)
+                if len(inner) == 1:
+                    cuts.append(inner[0])
+                    site[id(inner[0])] = c
     ok = len(pads) == 1 and len(hil) == 1 and len(cuts) == 1
     why = f"padding / transform / cut sites: {len(pads)} / {len(hil)} / {len(cuts)}"
     if ok:
         cond = lambda n: {(norm(t), pol) for t, pol in atomic_conditions(ff, n)}
-        same = cond(pads[0]) == cond(cuts[0]) and bool(cond(pads[0]))
-        pn, hn, cn = ff.cfg.node_for(pads[0]), ff.cfg.node_for(hil[0]), ff.cfg.node_for(cuts[0])
+        at = site[id(cuts[0])]
+        same = cond(pads[0]) == cond(at) and bool(cond(pads[0]))
+        pn, hn, cn = ff.cfg.node_for(pads[0]), ff.cfg.node_for(hil[0]), ff.cfg.node_for(at)
         order = ff.cfg.path_exists_avoiding(pn, hn, set()) and ff.cfg.path_exists_avoiding(hn, cn, set())
         lo, hi = norm(cuts[0].slice.lower), norm(cuts[0].slice.upper).replace(" ", "")
         middle = hi in (f"2*{lo}", f"{lo}*2", f"{lo}+{lo}")
